@@ -263,6 +263,7 @@ CHECKS = {
         units=[
             R("TestC15_FileConfig", 96, 1600, shards=16),
             R("TestC15_Dashboard", 160, 4800, shards=16),
+            R("TestC15_DashboardRun", 1600, 30000, shards=16),
         ],
     ),
     "C20": dict(
